@@ -1,7 +1,7 @@
 (* JsonModel.v -- executable model of the JSON reader and writer of Qentem
    (definitions only; proofs in JsonProofs*.v).
 
-   Modelled C++ (after the repairs D2, D11, D15, D16, D61, D62 of this component and
+   Modelled C++ (after the repairs D2, D11, D15, D16, D61, D62, D63 of this component and
    D28, D43, D44, D45 of the digit component -- see /verif/findings):
      Include/JSON.hpp        Parse, parseObject, parseArray, parseValue
      Include/JSONUtils.hpp   UnEscape<true>, Escape, JSONotation_T (via gen/Tables_json.v)
@@ -26,7 +26,7 @@
    char (UTF-8), 1 for char16_t, 2 for char32_t and 3 for wchar_t (4 bytes). *)
 From Coq Require Import NArith ZArith List Bool.
 From Qv Require Import gen.Tables_json.
-From Qv Require DigitModel.     (* only powerOfPositiveTen's overflow verdict (D43) is used *)
+From Qv Require DigitModel.     (* powerOfPositiveTen's overflow verdict (D43) and IntToString are used *)
 Import ListNotations.
 Local Open Scope N_scope.
 
@@ -594,15 +594,14 @@ Inductive vt :=
 | VObj (l : list (list N * vt))
 | VPtr (v : vt).
 
-Definition v_undef (v : vt) : bool := match v with VUndef => true | _ => false end.
+(* Value::standsForUndefined (added by D63, used by the two container writers): Undefined itself,
+   or a pointer chain that ends at an Undefined value *)
+Fixpoint v_undef (v : vt) : bool :=
+  match v with VUndef => true | VPtr p => v_undef p | _ => false end.
 
-(* Digit::NumberToString for integers: decimal digits, most significant first *)
-Fixpoint dec_rev (f : nat) (n : N) : list N :=
-  match f with
-  | O => []
-  | S f' => if n <? 10 then [dc_zero + n] else (dc_zero + n mod 10) :: dec_rev f' (n / 10)
-  end.
-Definition dec (n : N) : list N := rev (dec_rev 20 n).
+(* Digit::NumberToString for integers: the digit component's model of Digit::IntToString
+   (two digits at a time through the digit tables); a negative value prints its magnitude *)
+Definition dec (n : N) : list N := DigitModel.u64_to_string n.
 Definition dec_z (z : Z) : list N :=
   match z with
   | Zneg p => dc_neg :: dec (Npos p)
